@@ -9,6 +9,10 @@
      pubk := fun _ => epub         dh := fun _ r => r      recipients := the shared secrets
    (writer side) and dh := fun p _ => p, candidates := shared secrets (reader side), so that
    derive_key = HKDF(shared) and everything after the D-H is the model's own computation. *)
+From MLA Require Import Limit.
+From MLAGen Require Src.
+(* executable entry points: the production value of BINCODE_MAX_DESERIALIZE (the same in both flavours), file-local *)
+#[local] Instance RUN_LIMIT : Limit := MLAGen.Src.BINCODE_MAX_DESERIALIZE_prod.
 From MLA Require Import Base Inst Format Gcm Ecies EciesGcm Archive ArchiveInst.
 From MLA.Concrete Require Aes Ghash.
 From MLAGen Require Src.
